@@ -470,6 +470,8 @@ Record call := {
 Record observation := {
   o_img_entry : list N;           (* argbuf (and what follows it) after the entry hook, trailing fill stripped *)
   o_img_exit : list N;            (* same after the exit hook (buffer refilled in between) *)
+  o_cut_entry : option N;         (* Some n: the driver found argbuf[4 .. 4+n) equal to the payload in o_stream *)
+  o_cut_exit : option N;          (*         and left these n bytes out of o_img_entry / o_img_exit *)
   o_stream : list N;              (* the four records of the call as written to the shm buffer *)
   o_args_text : list N;           (* replay: text behind the name *)
   o_ret_text : list N             (* replay: text behind "}" *)
@@ -482,6 +484,7 @@ Definition model_call (syms : symtab) (c : call) : observation :=
   let px := if c_has_ret c then payload sx else None in
   {| o_img_entry := if c_has_args c then rstrip (c_fill c) (image (c_fill c) se) else [];
      o_img_exit := if c_has_ret c then rstrip (c_fill c) (image (c_fill c) sx) else [];
+     o_cut_entry := None; o_cut_exit := None;
      o_stream := enc_rec 0 (c_t0 c) UFTRACE_ENTRY 0 (c_addr c) pe ++
                  enc_rec 0 (c_t1 c) UFTRACE_ENTRY 1 (c_child c) None ++
                  enc_rec 0 (c_t2 c) UFTRACE_EXIT 1 (c_child c) None ++
@@ -490,15 +493,22 @@ Definition model_call (syms : symtab) (c : call) : observation :=
      o_ret_text := show_ret syms (c_specs c) px |}.
 
 Definition unmodelled (c : call) : bool :=
-  m_unmodelled (run (c_fill c) (c_inp c) false (c_specs c)) ||
-  m_unmodelled (run (c_fill c) (c_inp c) true (c_specs c)).
+  (existsb (fun s => (s_idx s =? 0) && fmt_eqb (s_fmt s) FFloat && (s_size s =? 10)) (c_specs c)).
+
+(* the image with the n payload bytes behind the size word left out *)
+Definition cut (n : option N) (img : list N) : list N :=
+  match n with Some k => takeN 4 img ++ dropN (4 + k) img | None => img end.
+(* the payload of the first record of a stream (as many bytes as there are) *)
+Definition first_payload (n : N) (stream : list N) : list N := takeN n (dropN 16 stream).
+Definition last_payload (n : N) (stream : list N) : list N := takeN n (dropN (lenN stream - ALIGN n 8) stream).
 
 (* model = implementation?  (text only where the rendering is modelled) *)
 Definition agrees (syms : symtab) (p : call * observation) : bool :=
   let '(c, o) := p in
   let m := model_call syms c in
   unmodelled c ||
-  (list_eqb (o_img_entry m) (o_img_entry o) && list_eqb (o_img_exit m) (o_img_exit o) &&
+  (list_eqb (cut (o_cut_entry o) (o_img_entry m)) (o_img_entry o) &&
+   list_eqb (cut (o_cut_exit o) (o_img_exit m)) (o_img_exit o) &&
    list_eqb (o_stream m) (o_stream o) &&
    (negb (text_modelled false (c_specs c)) || list_eqb (o_args_text m) (o_args_text o)) &&
    (negb (text_modelled true (c_specs c)) || list_eqb (o_ret_text m) (o_ret_text o))).
@@ -554,6 +564,10 @@ Definition need (s : spec) (a : aval) : N :=
 Definition fits (l : list (spec * aval)) : bool :=
   fold_left (fun acc p => acc + need (fst p) (snd p)) l 0 <=? MAX_SIZE.
 
+(* existsb, but lazy under vm_compute (orb evaluates both arguments) *)
+Fixpoint anyb {A} (f : A -> bool) (l : list A) : bool :=
+  match l with [] => false | a :: r => if f a then true else anyb f r end.
+
 (* txt = c1 ", " c2 ", " ... with ci an acceptable rendering of the i-th value *)
 Fixpoint match_vals (l : list (spec * aval)) (txt : list N) (first : bool) : bool :=
   match l with
@@ -562,7 +576,7 @@ Fixpoint match_vals (l : list (spec * aval)) (txt : list N) (first : bool) : boo
       let txt1 := if first then Some txt else if prefixb comma txt then Some (skipn 2 txt) else None in
       match txt1 with
       | None => false
-      | Some t => existsb (fun c => prefixb c t && match_vals r (skipn (length c) t) false) (accept s a)
+      | Some t => anyb (fun c => if prefixb c t then match_vals r (skipn (length c) t) false else false) (accept s a)
       end
   end.
 
@@ -602,6 +616,27 @@ Definition ok_ret (actual : list (spec * aval)) (txt : list N) : bool :=
 Record judged := { j_args : list (spec * aval); j_ret : list (spec * aval); j_obs : observation }.
 Definition ok_call (j : judged) : bool :=
   ok_args (j_args j) (o_args_text (j_obs j)) && ok_ret (j_ret j) (o_ret_text (j_obs j)).
+
+(* test cases as the driver writes them: the specs are taken from the call *)
+Definition judge_of (c : call) (o : observation) (aargs aret : list aval) : judged :=
+  {| j_args := combine (filter (fun s => negb (s_idx s =? 0)) (c_specs c)) aargs;
+     j_ret := combine (filter (fun s => s_idx s =? 0) (c_specs c)) aret;
+     j_obs := o |}.
+Definition Sp (idx : N) (f : fmt) (size : N) (t : atype) (u : N) : spec :=
+  {| s_idx := idx; s_fmt := f; s_size := size; s_type := t; s_u := Z.of_N u; s_regs := []; s_name := [] |}.
+Definition AStrAt (inp : inputs) (a : N) : aval :=       (* the string the inputs hold at address a *)
+  match assoc a (strs inp) with Some s => AStr s | None => ABad a end.
+(* the word the caller placed in register k (0 = rdi) / stack slot k (1 = first) / retval[k] *)
+Definition ARegAt (inp : inputs) (k : N) : aval := AInt (nthN (regs inp) k).
+Definition AStkAt (inp : inputs) (k : N) : aval := AInt (nthN (stk inp) (k - 1)).
+Definition ARetAt (inp : inputs) (k : N) : aval := AInt (nthN (rets inp) k).
+Record tcase := { t_call : call; t_obs : observation; t_aargs : list aval; t_aret : list aval }.
+Definition t_agrees (syms : symtab) (t : tcase) : bool := agrees syms (t_call t, t_obs t).
+Definition t_ok (t : tcase) : bool := ok_call (judge_of (t_call t) (t_obs t) (t_aargs t) (t_aret t)).
+
+(* run-length coded byte strings in case files: v < 256 is a byte, otherwise (v / 256) copies of v mod 256 *)
+Definition unrle (l : list N) : list N :=
+  flat_map (fun v => if v <? 256 then [v] else repeat (v mod 256) (N.to_nat (v / 256))) l.
 
 (* a task stream decodes to the expected sequence of (type, depth, addr): nothing after a payload
    is lost or misread *)
